@@ -256,7 +256,20 @@ func requirement(w *World, d *Deployed, c *CallInfo) wReq {
 				if cid, ok := argBytes(c.Args[0]); ok {
 					if it, err := w.readNoHook(d.Hash, "alias", cid); err == nil {
 						if dom := ItemBytes(it); len(dom) > 0 {
-							if h, ok := domainOwner(string(dom)); ok {
+							// only the container's own record is taken away: NNS is asked
+							// to change something (and wants its owner's witness) only
+							// while the name serves that record
+							served := false
+							if recs, err := w.readNoHook(w.C["nns"].Hash, "getRecords", string(dom), int64(16)); err == nil {
+								if arr, ok := recs.Value().([]stackitem.Item); ok {
+									for _, x := range arr {
+										if b, err := x.TryBytes(); err == nil && string(b) == ctBase58(cid) {
+											served = true
+										}
+									}
+								}
+							}
+							if h, ok := domainOwner(string(dom)); ok && served {
 								return and(wReq{known: true, alts: [][]util.Uint160{wAlt(A)}}, h)
 							}
 						}
